@@ -167,7 +167,9 @@ def defaultRecvMessageCapacity : Nat := 22020096
 def maxPacketMsgSize (maxPayload : Nat) : Nat :=
   (encFrame (.msg 1 1 (List.replicate maxPayload 0))).length + 10
 
-def Recv.close (r : Recv) (e : Err) : Recv := { r with err := some e }
+/-- `stopForError`: nothing is read any more (the phase is reset so that a closed receiver does not
+    depend on where it stopped). -/
+def Recv.close (r : Recv) (e : Err) : Recv := { r with err := some e, phase := .len [] }
 
 /-- the `switch pkt := packet.(type)` of `recvRoutine` incl. `Channel.recvPacketMsg`. -/
 def Recv.onPacket (r : Recv) (p : Packet) : Recv :=
